@@ -315,8 +315,23 @@ func copyVars(v map[string]interface{}) map[string]interface{} {
 	return out
 }
 
+// homeOf finds the template in which a macro is defined.
+func (m *Model) homeOf(mac *S, caller *Env) *Tmpl {
+	for _, t := range m.Set {
+		for _, s := range t.Body {
+			if s == mac {
+				return t
+			}
+		}
+	}
+	return caller.tmpl
+}
+
 func collectMacros(t *Tmpl) map[string]*S {
 	out := map[string]*S{}
+	if t == nil {
+		return out
+	}
 	for _, s := range t.Body {
 		if s.K == "macro" {
 			out[s.Name] = s
@@ -729,7 +744,9 @@ func (m *Model) invokeMacro(w *strings.Builder, mac *S, args []interface{}, call
 			vars[p.Name] = nil
 		}
 	}
-	// outer variables stay readable behind the parameters; assignments stay local
-	sub := &Env{vars: vars, parent: caller, m: m, macros: map[string]*S{}, tmpl: caller.tmpl}
+	// outer variables stay readable behind the parameters; assignments stay local; the
+	// macros defined next to this one are callable by bare name and through _self
+	home := m.homeOf(mac, caller)
+	sub := &Env{vars: vars, parent: caller, m: m, macros: collectMacros(home), tmpl: home}
 	return m.exec(w, mac.Body, sub, nil)
 }
